@@ -27,6 +27,7 @@ def c18Race (args : List String) (impl : String) : String × String :=
       | ["fqsq", a, b] => methodGuarded ("FeeQuotes." ++ a) && methodGuarded ("FeeQuote." ++ b)
       | ["engine"] => GoBT.Gen.Shared.engineFields == 0 && GoBT.Gen.Shared.writtenGlobals.isEmpty
       | ["scripts"] => GoBT.Gen.Shared.engineFields == 0 && GoBT.Gen.Shared.writtenGlobals.isEmpty
+      | ["enginelong"] => GoBT.Gen.Shared.engineFields == 0 && GoBT.Gen.Shared.writtenGlobals.isEmpty
       | _ => false
     let model := if !predicted then "*" else if impl.startsWith "ok" then impl else "ok"
     let pred :=
